@@ -94,16 +94,17 @@ def run(ctx):
     from ..prelude import import_tf_quiet
 
     quick = ctx.tier == "quick"
-    nev = 64 if quick else 512
+    nev = 64 if quick else 4096
+    q = 3 if quick else 4
     rng = np.random.default_rng(ctx.seed % (2**32))
     shapes = {}
     for n in (3, 4, 5):
-        r = tlc.run("Kinematics", _cfg(ctx, n, 3), work=ctx.work, workers=16, timeout=1500)
+        r = tlc.run("Kinematics", _cfg(ctx, n, q), work=ctx.work, workers=16, timeout=1500)
         if r.violation:
             raise tlc.MachineryError("Kinematics spec violates its own invariant %s at N=%d" % (r.violation, n))
         if r.out is None:
             raise tlc.MachineryError("Kinematics N=%d wrote no table (RuleComplete false?):\n%s" % (n, r.stdout[-1500:]))
-        ctx.tlc(r, "Kinematics N=%d Q=3" % n, vacuity_actions=["Next"])
+        ctx.tlc(r, "Kinematics N=%d Q=%d" % (n, q), vacuity_actions=["Next"])
         dfact = {3: 3, 4: 15, 5: 105}[n]
         if len(r.out["shapes"]) != dfact or r.out["nvars"] != 3 * n - 4:
             raise tlc.MachineryError("Kinematics N=%d: %d shapes" % (n, len(r.out["shapes"])))
@@ -185,8 +186,8 @@ def run(ctx):
     ctx.part("round_trip", shapes=n_shapes, variable_lists_compared=n_disc, events_per_shape=nev, worst_error_units_of_1e_9=max(worst.values()))
 
     # ---------------- sampled numeric probes (no discrete content) ---------------
-    probes_dalitz(ctx, rng, 2000 if quick else 50000)
-    probes_vectors(ctx, rng, 2000 if quick else 50000)
+    probes_dalitz(ctx, rng, 2000 if quick else 200000)
+    probes_vectors(ctx, rng, 2000 if quick else 200000)
     ctx.cov["traces_validated_against_impl"] = n_disc
     ctx.cov["rule"] = (
         "TLC enumerates every cascade shape for n = 3, 4, 5 (123) and every integer mass assignment reachable by the range rule "
@@ -272,7 +273,6 @@ def probes_vectors(ctx, rng, size):
         ref = np.stack([lorentz_boost(v[i]) @ p[i] for i in range(min(size, 200))])
         errs["boost-vs-independent"] = np.max(np.abs(pb[: len(ref)] - ref), axis=-1) / scale[: len(ref)]
         # boost_matrix of a moving particle k equals the vector boost by k's velocity
-        k = np.concatenate([(g * rng.uniform(0.5, 2.0, size))[:, None], (g * rng.uniform(0.5, 2.0, size))[:, None] * 0 + 0], axis=-1)[:, :1]
         mk = rng.uniform(0.5, 2.0, size)
         kvec = np.concatenate([(g * mk)[:, None], (g * mk)[:, None] * v], axis=-1)
         bm = np.asarray(lv.boost_matrix(kvec))
